@@ -305,8 +305,8 @@ def spec() -> Spec:
         generate=generate,
         extract=extract,
         nontrivial=nontrivial,
-        budget={"quick": 1200, "thorough": 30000},
-        search_budget={"quick": 4000, "thorough": 40000},
+        budget={"quick": 1200, "thorough": 15000},
+        search_budget={"quick": 2500, "thorough": 20000},
         rule="histories of put/overwrite/get/get_record/sweep/snapshot on a real ChunkStore and of store_chunk/fetch_chunk/"
              "export_chunk_record/peer request/LIST/tick/sweep on a real Node under the virtual clock; 1-6 ids, TTLs from "
              "{<=0, 1, 2, 3, default, min-1, min, min+1, max, max+1, 1e6}, advances aimed at deadline -1 ns / 0 / +1 ns, at the "
